@@ -66,7 +66,11 @@ MB_PUNCT = ["“", "”", "‘", "’", "–", "—", "§",
             "¶", "…", "•", "™", "€", "«", "»"]
 MB_LETTER = ["é", "ü", "ñ", "ç", "Ö", "法", "́"]
 MB_FOUR = ["\U0001F600", "\U00010348"]
-MB_ALL = MB_PUNCT + MB_LETTER + MB_FOUR
+# invisible format characters (category Cf): not whitespace for Python's \s, so
+# still inside the domain; a byte-level pre-processing step that treats them as
+# spaces would not be
+MB_FORMAT = ["\u200b", "\ufeff", "\u180e", "\u2060", "\u00ad"]
+MB_ALL = MB_PUNCT + MB_LETTER + MB_FOUR + MB_FORMAT
 
 
 def in_c14_domain(text):
